@@ -186,16 +186,28 @@ class Check:
             self.budget_factor = 3 if self.tier == "quick" else 2      # more cases, but the quick tier must stay quick
 
     # ------------------------------------------------------------------ lean
-    def _lake(self, args, timeout=3600):
+    def _pkg_lock(self):
         os.makedirs(os.path.join(self.pkgdir, ".lake"), exist_ok=True)
         lock = open(os.path.join(self.pkgdir, ".lake", "verif.lock"), "w")
         fcntl.flock(lock, fcntl.LOCK_EX)
+        return lock
+
+    def _lake_raw(self, args, timeout=3600):
         try:
             p = subprocess.run(["lake"] + args, cwd=self.pkgdir, capture_output=True, text=True,
                                timeout=timeout)
             return p.returncode, p.stdout + p.stderr
         except subprocess.TimeoutExpired:
             raise InfraError("lake timed out")
+
+    def _lake(self, args, timeout=3600):
+        """one lake command under the package lock; inside build() the lock is already held (one critical
+        section for delete + build + audit, so that a concurrent run can never see half of it)"""
+        if getattr(self, "_have_pkg_lock", False):
+            return self._lake_raw(args, timeout)
+        lock = self._pkg_lock()
+        try:
+            return self._lake_raw(args, timeout)
         finally:
             fcntl.flock(lock, fcntl.LOCK_UN)
             lock.close()
@@ -232,8 +244,18 @@ class Check:
         return True
 
     def build(self, clean=False):
-        """lake build of the property's theorems (+ driver) and the axiom audit.
-        Sets build_ok, broken_obligations, obligations, discharged."""
+        """lake build of the property's theorems (+ driver) and the axiom audit, as ONE critical section under the
+        package lock.  Sets build_ok, broken_obligations, obligations, discharged."""
+        lock = self._pkg_lock()
+        self._have_pkg_lock = True
+        try:
+            return self._build_locked(clean)
+        finally:
+            self._have_pkg_lock = False
+            fcntl.flock(lock, fcntl.LOCK_UN)
+            lock.close()
+
+    def _build_locked(self, clean=False):
         targets = [self.props] + self.more_props + self.extra_targets + ([self.driver_name] if self.driver_name else [])
         if clean or (self.tier == "thorough" and os.environ.get("VERIF_NO_CLEAN") is None):
             # rebuild the property's own modules from scratch (not Mathlib)
@@ -466,7 +488,7 @@ class Check:
         }
         d = os.environ.get("VERIF_EVIDENCE_DIR") or os.path.join(ROOT, "evidence")
         os.makedirs(d, exist_ok=True)
-        tmp = os.path.join(d, f".{self.prop}.json.tmp")
+        tmp = os.path.join(d, f".{self.prop}.json.{os.getpid()}.tmp")
         json.dump(ev, open(tmp, "w"), indent=1, default=str)
         os.replace(tmp, os.path.join(d, f"{self.prop}.json"))
 
